@@ -33,8 +33,7 @@ def bases(ctx):
         if not lib.well_formed(ns):
             continue
         for ev in ([], [("ts", 0, 3, 4)], [("ks", 4, "G")], [("ts", 4, 3, 4), ("ks", 0, "G")]):
-            if ns or ev:
-                out.append((ns, ev))
+            out.append((ns, ev))          # includes the completely empty sequence
     return out
 
 
@@ -84,6 +83,10 @@ def variants(ns, ev, ctx):
             yield (kind, ns, ev[:i] + [e2] + ev[i + 1:], "abs", None)
     if len({n[3] for n in ns}) == 1 and ns:
         yield ("perturb:relabel", ns, ev, "relabel", None)
+    if not ev:
+        # only a signature is added: equal exactly under that signature's flag (also with an empty left operand)
+        yield ("perturb:ts_value", ns, [("ts", 0, 3, 4)], "abs", None)
+        yield ("perturb:ks_value", ns, [("ks", 0, "G")], "abs", None)
 
 
 def gen_cases(unit, ctx):
